@@ -16,6 +16,11 @@ import FpVerif.Spec.C14Fut
       the hlist future's value, and if that value is a success it is exactly the values of positions 1..i-1, all
       successful — after a failure, or before the earlier positions are determined, the supplier is NOT run.
 
+(b') audit finding 1: `StepWFT` (the Try values / futures a step hands over are well formed), `runChain_wf`,
+    `chain_wellformed_every_schedule`: no ill-formed Try (`failure .nil`) ever appears, before or after a chain is built,
+    so the `Valid` side condition of `chain_sound_every_schedule` is maintained by the builders themselves.
+    The same for `ApplicativeN`: `AStepWFT`, `runApplicative_wf`, `applicative_wellformed_every_schedule`.
+
 (d) `eager_apFutureFunc_differs`: the seeded defect (`MonadChain5.ApFutureFunc = r.ApFuture(a())`) as a model mutant: it
     logs the supplier's event during construction, which `runChain_log` forbids.
 -/
@@ -246,10 +251,10 @@ theorem le_run {nsrc : Nat} (l : List Ev) : ∀ (m : Net), Inv nsrc m → Valid 
              fun q c hc => cbOK_le hle0 q c (hm.cbs q c hc), hm.fresh, hm.srcs⟩
           exact hle0.trans (inv_runTask h0 tk (taskOK_le hle0 tk (hm.tasks tk hmem))).2
       | src p t =>
-        have hp : p < nsrc := hval.1
+        have hp : p < nsrc := hval.1.1
         exact (inv_complete hm p t (Nat.lt_of_lt_of_le hp hm.srcs.1) (by
           intro _; rw [hm.srcs.2 p hp]; simp [evalS])).2
-      | mk e' => exact (inv_build e' m hm hval.1).le
+      | mk e' => exact (inv_build e' m hm hval.1.1).le
       | obs p id => exact (inv_onComplete hm p (.observe id) trivial).2
     exact hstep.trans (ih _ (inv_step hm a hval.1) hval.2)
 
@@ -403,12 +408,181 @@ example :
     Valid 1 (Net.empty 1) evs ∧ (∀ cs ∈ steps, StepFO n.next cs.2) ∧ Valid 1 (runChain fn steps n).2 evs' ∧
     (runEvs (runChain fn steps n).2 evs').status (runChain fn steps n).1 = some (.failure (.code 3)) ∧
     (runEvs (runChain fn steps n).2 evs').log = [] := by
-  refine ⟨⟨(by show (0 : Nat) < 1; decide), trivial⟩, ?_, ?_, rfl, rfl⟩
+  refine ⟨⟨⟨(by decide : (0 : Nat) < 1), (wfTry_failure _).2 (by decide)⟩, trivial⟩, ?_, ?_, rfl, rfl⟩
   · intro cs hcs
     simp only [List.mem_cons, List.mem_nil_iff, or_false] at hcs
     rcases hcs with rfl | rfl
     · show (0 : Nat) < _; decide
     · trivial
   · simp [List.replicate, Valid, EvOK]
+
+-- (b') audit finding 1: the builders never introduce an ill-formed Try ---------------------------------------------------------
+
+/-- the Try values a step hands to the library are well formed: `ApTry(t)` / the Try an `ApTryFunc` supplier returns is not
+    `Try{}` / `Failure(nil)` (Go: `FromTry` evaluates `v.Failed().Get()`, future_op.go:100, and panics on it — in the
+    CALLER for `ApTry`, in the supplier's task for `ApTryFunc`), and the futures user callbacks return are `WFE` -/
+def StepWFT : Step → Prop
+  | .a (.apTry t) => WFTry t
+  | .a (.apFutureFunc s) => ∀ c, WFE (s c)
+  | .a (.apTryFunc s) => ∀ c, WFTry (s c).1
+  | .flatMap k => ∀ c v, WFE (k c v)
+  | .hlistFlatMap k => ∀ c v, WFE (k c v)
+  | _ => True
+
+theorem wfe_fromTry (t : Try Val) (h : WFTry t) : WFE (fromTry t) := by
+  cases t with
+  | success v => exact .successful v
+  | failure e => exact .failed e ((wfTry_failure e).1 h)
+
+theorem wfe_fromOption (o : Option Val) : WFE (fromOption o) := by
+  cases o with
+  | some v => exact .successful v
+  | none => exact .failed _ (by decide)
+
+theorem wfe_chainOperand (h : Nat) (c : Ex) {s : Step} (hs : StepWFT s) : WFE (chainOperand h c s) := by
+  cases s with
+  | a s =>
+    cases s with
+    | apFuture a => exact .ref a
+    | ap v => exact .successful v
+    | apTry t => exact wfe_fromTry t hs
+    | apOption o => exact wfe_fromOption o
+    | apFutureFunc s => exact .flatMap _ _ (.ref h) (fun _ => hs c)
+    | apTryFunc s => exact .flatMap _ _ (.ref h) (fun _ => .logged _ _ (wfe_fromTry _ (hs c)))
+    | apOptionFunc s => exact .flatMap _ _ (.ref h) (fun _ => .logged _ _ (wfe_fromOption _))
+    | apFunc s => exact wfe_map _ _ (.ref h)
+  | flatMap k => exact .flatMap _ _ (.ref h) (fun _ => hs c _)
+  | map k => exact .flatMap _ _ (.ref h) (fun _ => .logged _ _ (.successful _))
+  | hlistFlatMap k => exact .flatMap _ _ (.ref h) (fun v => hs c v)
+  | hlistMap k => exact .flatMap _ _ (.ref h) (fun _ => .logged _ _ (.successful _))
+
+theorem wfe_ap (app : Ex → Val → Val → W Val) (t a : Nat) (c : Ex) : WFE (Fut.ap app t a c) :=
+  .flatMap _ _ (.ref t) (fun _ => wfe_map _ _ (.ref a))
+
+theorem wfe_apFunc (app : Ex → Val → Val → W Val) (t : Nat) (a : Ex → FExpr) (c : Ex) (ha : ∀ c, WFE (a c)) :
+    WFE (Fut.apFunc app t a c) :=
+  .flatMap _ _ (.ref t) (fun _ => wfe_map _ _ (ha c))
+
+theorem chainStep_wf {app : Ex → Val → Val → W Val} {n : Net} {st : ChainSt} (h : WFNet n) (c : Ex) {s : Step}
+    (hs : StepWFT s) : WFNet (chainStep app st c s n).2 := by
+  simp only [chainStep]
+  have b1 := wf_build (chainOperand st.h c s) (wfe_chainOperand st.h c hs) n h
+  generalize build (chainOperand st.h c s) n = r1 at b1
+  obtain ⟨av, n1⟩ := r1
+  have b2 := wf_build (map2 av st.h hconsW) (wfe_map2 _ _ _) n1 b1
+  generalize build (map2 av st.h hconsW) n1 = r2 at b2
+  obtain ⟨nh, n2⟩ := r2
+  exact wf_build (Fut.ap app st.fn av .d) (wfe_ap _ _ _ _) n2 b2
+
+theorem chainLast_wf {app : Ex → Val → Val → W Val} {n : Net} {st : ChainSt} (h : WFNet n) (c : Ex) {s : Step}
+    (hs : StepWFT s) : WFNet (chainLast app st c s n).2 := by
+  simp only [chainLast]
+  have b1 := wf_build (chainOperand st.h c s) (wfe_chainOperand st.h c hs) n h
+  generalize build (chainOperand st.h c s) n = r1 at b1
+  obtain ⟨av, n1⟩ := r1
+  exact wf_build (Fut.ap app st.fn av .d) (wfe_ap _ _ _ _) n1 b1
+
+theorem chainRun_wf {app : Ex → Val → Val → W Val} (steps : List (Ex × Step)) :
+    ∀ {n : Net} {st : ChainSt}, WFNet n → (∀ cs ∈ steps, StepWFT cs.2) → WFNet (chainRun app st steps n).2 := by
+  induction steps with
+  | nil => intro n _ h _; exact h
+  | cons cs rest ih =>
+    intro n st h hwf
+    obtain ⟨c, s⟩ := cs
+    cases rest with
+    | nil => exact chainLast_wf h c (hwf (c, s) (by simp))
+    | cons cs2 rest2 =>
+      simp only [chainRun]
+      have h1 := chainStep_wf (app := app) (st := st) h c (hwf (c, s) (by simp))
+      generalize chainStep app st c s n = r1 at h1
+      obtain ⟨st1, n1⟩ := r1
+      exact ih h1 (fun x hx => hwf x (by simp [hx]))
+
+/-- **(b')** building a whole chain whose steps are well formed keeps the network free of ill-formed Try values … -/
+theorem runChain_wf (fn : NFn) (steps : List (Ex × Step)) {n : Net} (h : WFNet n) (hwf : ∀ cs ∈ steps, StepWFT cs.2) :
+    WFNet (runChain fn steps n).2 := by
+  simp only [runChain, chainNew]
+  have b1 := wf_build (.successful (hl [])) (.successful _) n h
+  generalize build (.successful (hl [])) n = r1 at b1
+  obtain ⟨h0, n1⟩ := r1
+  have b2 := wf_build (.successful (pa [])) (.successful _) n1 b1
+  generalize build (.successful (pa [])) n1 = r2 at b2
+  obtain ⟨f0, n2⟩ := r2
+  exact chainRun_wf steps b2 hwf
+
+/-- … hence, for every schedule before and after the chain is built: no promise (the chain's own future included) is ever
+    completed with `failure .nil`, no pooled task carries it — the side condition under which
+    `chain_sound_every_schedule` describes the Go code (cf. `C06.illformed_source_excluded`). -/
+theorem chain_wellformed_every_schedule (nsrc : Nat) (evs : List Ev) (hv : Valid nsrc (Net.empty nsrc) evs)
+    (fn : NFn) (steps : List (Ex × Step)) (hwf : ∀ cs ∈ steps, StepWFT cs.2)
+    (evs' : List Ev) (hv' : Valid nsrc (runChain fn steps (runEvs (Net.empty nsrc) evs)).2 evs') :
+    WFNet (runEvs (runChain fn steps (runEvs (Net.empty nsrc) evs)).2 evs') :=
+  wf_runEvs evs' _ (runChain_wf fn steps (wellformed_every_schedule nsrc evs hv) hwf) (valid_evWF evs' _ hv')
+
+def AStepWFT (s : AStep) : Prop := StepWFT (.a s)
+
+theorem applicativeStep_wf {app : Ex → Val → Val → W Val} {n : Net} {f : Nat} (h : WFNet n) (last : Bool) (c : Ex)
+    {s : AStep} (hs : AStepWFT s) : WFNet (applicativeStep app f last c s n).2 := by
+  unfold applicativeStep
+  cases hsup : s.supplier with
+  | some sup =>
+    simp only
+    have hsupwf : ∀ c, WFE (sup c) := by
+      intro c
+      cases s <;> simp [AStep.supplier] at hsup <;> subst hsup
+      · exact hs c
+      · exact .logged _ _ (wfe_fromTry _ (hs c))
+      · exact .logged _ _ (wfe_fromOption _)
+      · exact .logged _ _ (.successful _)
+    exact wf_build _ (wfe_apFunc app f sup _ hsupwf) n h
+  | none =>
+    simp only
+    have hv : WFE s.valueExpr := by
+      cases s <;> simp [AStep.supplier] at hsup
+      · exact .ref _
+      · exact .successful _
+      · exact wfe_fromTry _ hs
+      · exact wfe_fromOption _
+    have b1 := wf_build s.valueExpr hv n h
+    generalize build s.valueExpr n = r1 at b1
+    obtain ⟨a, n1⟩ := r1
+    exact wf_build (Fut.ap app f a .d) (wfe_ap _ _ _ _) n1 b1
+
+theorem applicativeRun_wf {app : Ex → Val → Val → W Val} (steps : List (Ex × AStep)) :
+    ∀ {n : Net} {f : Nat}, WFNet n → (∀ cs ∈ steps, AStepWFT cs.2) → WFNet (applicativeRun app f steps n).2 := by
+  induction steps with
+  | nil => intro n _ h _; exact h
+  | cons cs rest ih =>
+    intro n f h hwf
+    obtain ⟨c, s⟩ := cs
+    cases rest with
+    | nil => exact applicativeStep_wf h true c (hwf (c, s) (by simp))
+    | cons cs2 rest2 =>
+      simp only [applicativeRun]
+      have h1 := applicativeStep_wf (app := app) (f := f) h false c (hwf (c, s) (by simp))
+      generalize applicativeStep app f false c s n = r1 at h1
+      obtain ⟨f1, n1⟩ := r1
+      exact ih h1 (fun x hx => hwf x (by simp [hx]))
+
+theorem runApplicative_wf (fn : NFn) (steps : List (Ex × AStep)) {n : Net} (h : WFNet n)
+    (hwf : ∀ cs ∈ steps, AStepWFT cs.2) : WFNet (runApplicative fn steps n).2 := by
+  simp only [runApplicative, applicativeNew]
+  have b0 := wf_build (.successful (pa [])) (.successful _) n h
+  generalize build (.successful (pa [])) n = r0 at b0
+  obtain ⟨f0, n0⟩ := r0
+  exact applicativeRun_wf steps b0 hwf
+
+/-- the same for `ApplicativeN(fn).m1(…)…mN(…)` -/
+theorem applicative_wellformed_every_schedule (nsrc : Nat) (evs : List Ev) (hv : Valid nsrc (Net.empty nsrc) evs)
+    (fn : NFn) (steps : List (Ex × AStep)) (hwf : ∀ cs ∈ steps, AStepWFT cs.2)
+    (evs' : List Ev) (hv' : Valid nsrc (runApplicative fn steps (runEvs (Net.empty nsrc) evs)).2 evs') :
+    WFNet (runEvs (runApplicative fn steps (runEvs (Net.empty nsrc) evs)).2 evs') :=
+  wf_runEvs evs' _ (runApplicative_wf fn steps (wellformed_every_schedule nsrc evs hv) hwf) (valid_evWF evs' _ hv')
+
+/-- the excluded step: `ApTry(Try{})` makes the model build `Failed(nil)`, i.e. complete a promise with `failure .nil`;
+    Go's `FromTry` panics in the caller instead -/
+example : ¬ StepWFT (.a (.apTry (.failure .nil))) ∧ chainOperand 0 .d (.a (.apTry (.failure .nil))) = .failed .nil :=
+  ⟨fun h => h rfl, rfl⟩
+
 
 end FpVerif.Spec.C06Chain
